@@ -179,7 +179,7 @@ func (w *World) treeCheck(h *Handle, name string, c *g.Collection, mc *MColl, no
 		var ib uint64
 		switch {
 		case n.Item != nil && n.Item.Val != nil:
-			ib = uint64(len(n.Item.Key) + len(n.Item.Val))
+			ib = uint64(len(n.Item.Key) + len(n.Item.Val) + curValExtra)
 		case n.ItemLen >= 16:
 			ib = uint64(n.ItemLen - 16)
 		default:
